@@ -8,6 +8,9 @@
 #include <stdlib.h>
 #include <string.h>
 
+/* ghost counters saturate (never wrap) */
+#define Y_SAT_INC(x) ((x) += ((x) != 0xffffffffu))
+#define Y_SATP1(x) ((x) + ((x) != 0xffffffffu))
 #define Y_MO 0
 #define Y_VACUITY_PROBE() __CPROVER_assert(0, "Y_VACUITY_PROBE")
 #define Y_PAUSE() ((void)0)
@@ -109,14 +112,18 @@ static inline void* Y_OP_NEW(uint64_t size, uint64_t align)
   __CPROVER_assume(p != 0);
   __CPROVER_assume((((uint64_t)p) & (align - 1)) == 0);
   __CPROVER_assume((((uint64_t)p) & (3UL << 62)) == 0);
-  y_alloc.new_ptr = p; y_alloc.new_size = size; y_alloc.new_align = align; y_alloc.new_cnt++;
+  y_alloc.new_ptr = p; y_alloc.new_size = size; y_alloc.new_align = align; Y_SAT_INC(y_alloc.new_cnt);
   return p;
 }
-static inline void Y_OP_DELETE(void* p, uint64_t size, uint64_t align)
+static inline void y_op_delete(void* p, uint64_t size, uint64_t align)
 {
-  y_alloc.del_ptr = p; y_alloc.del_size = size; y_alloc.del_align = align; y_alloc.del_cnt++;
-  free(p);
+  y_alloc.del_ptr = p; y_alloc.del_size = size; y_alloc.del_align = align; Y_SAT_INC(y_alloc.del_cnt);
+#ifndef Y_NO_REAL_FREE
+  free(p);   /* units that release pointers taken from an arbitrary queue element record the release in the ledger only */
+#endif
 }
+/* Y_OP_DELETE_HOOK / Y_NODE_DELETE_HOOK / Y_QUEUE_POP_HOOK_<Q>: per-unit ghost observers (default: nothing), defined in a unit's `early` section */
+#define Y_OP_DELETE(p, size, align) (Y_OP_DELETE_HOOK((p), (size), (align)), y_op_delete((p), (size), (align)))
 
 /* node allocation (new border_node() / new interior_node()) and delete */
 typedef struct y_node_ghost { void* new_ptr[4]; unsigned new_cnt; void* del_ptr[4]; unsigned del_cnt; } y_node_ghost;
@@ -130,12 +137,15 @@ static inline void* y_alloc_node(uint64_t size)
   y_nodes.new_cnt++;
   return p;
 }
-static inline void y_free_node(void* p)
+static inline void y_free_node_raw(void* p)
 {
   if (y_nodes.del_cnt < 4) y_nodes.del_ptr[y_nodes.del_cnt] = p;
-  y_nodes.del_cnt++;
+  Y_SAT_INC(y_nodes.del_cnt);
+#ifndef Y_NO_REAL_FREE
   free(p);
+#endif
 }
+#define y_free_node(p) (Y_NODE_DELETE_HOOK((p)), y_free_node_raw((p)))
 #define Y_DYNCAST(R, x) (((x) != 0 && (x)->y_kind == Y_KIND_##R) ? (R*)(x) : (R*)0)
 #define Y_UNREACHABLE_VIRTUAL() __CPROVER_assert(0, "virtual dispatch on an object of unknown dynamic type")
 
@@ -158,9 +168,6 @@ unsigned y_ev;
 #define Y_G_LD(S) y_g_##S.ld_cnt, y_g_##S.ld_val, y_g_##S.ld_loc, y_g_##S.obs
 #define Y_G_ST(S) y_g_##S.st_cnt, y_g_##S.st_val, y_g_##S.st_loc, y_g_##S.st_ev
 #define Y_G_CAS(S) y_g_##S.cas_ok, y_g_##S.cas_fail, y_g_##S.cas_old, y_g_##S.cas_new, y_g_##S.cas_loc, y_g_##S.cas_ev, y_g_##S.cas_seen, y_g_##S.obs
-/* ghost counters saturate (never wrap) */
-#define Y_SAT_INC(x) ((x) += ((x) != 0xffffffffu))
-#define Y_SATP1(x) ((x) + ((x) != 0xffffffffu))
 /* std::atomic<T> / __atomic builtins: one sequentially consistent step each (memory orders dropped).
  * y_g_<S>.arb != 0 selects arbitrary-interference mode for that value type: loads return any value, a CAS succeeds or
  * fails nondeterministically (on failure `expected` receives any value). Stores always hit memory. */
@@ -189,15 +196,15 @@ unsigned y_ev;
   static inline T Y_FADD_##S(T* loc, T d) { T o = *loc; *loc = (T)(o + d); Y_SAT_INC(y_g_##S.st_cnt); y_g_##S.st_val = *loc; y_g_##S.st_loc = loc; y_g_##S.st_ev = ++y_ev; return o; } \
   static inline T Y_FSUB_##S(T* loc, T d) { T o = *loc; *loc = (T)(o - d); Y_SAT_INC(y_g_##S.st_cnt); y_g_##S.st_val = *loc; y_g_##S.st_loc = loc; y_g_##S.st_ev = ++y_ev; return o; }
 
-/* concurrent_queue<T>: ghost FIFO; try_pop may fail spuriously while the queue is non-empty (TBB allows it under contention) */
-#ifndef Y_QUEUE_CAP
-#define Y_QUEUE_CAP 4
-#endif
+/* concurrent_queue<T>: UNBOUNDED model. The queue is its length plus ghost counters; try_pop on a non-empty queue either fails
+ * spuriously (TBB allows that under contention) or yields an ARBITRARY element (the next element of an arbitrary sequence), so
+ * whatever a consumer proves holds for every queue content and every queue length. FIFO order itself is TBB's (trusted). */
 #define Y_DECLARE_QUEUE(Q, T) \
-  struct Q { T buf[Y_QUEUE_CAP]; unsigned head; unsigned tail; unsigned pushed; unsigned popped; }; \
-  static inline void Y_QUEUE_PUSH_##Q(Q* q, T v) { __CPROVER_assert(q->tail < Y_QUEUE_CAP, "ghost queue capacity"); q->buf[q->tail] = v; q->tail++; q->pushed++; } \
-  static inline _Bool Y_QUEUE_EMPTY_##Q(Q* q) { return q->head == q->tail; } \
-  static inline _Bool Y_QUEUE_TRY_POP_##Q(Q* q, T* out) { if (q->head == q->tail) return 0; if (nondet_bool()) return 0; *out = q->buf[q->head]; q->head++; q->popped++; return 1; }
+  struct Q { uint64_t len; unsigned pushed; unsigned popped; T last_pushed; T last_popped; }; \
+  T nondet_##Q(void); \
+  static inline void Y_QUEUE_PUSH_##Q(Q* q, T v) { __CPROVER_assume(q->len < (1UL << 62)); q->len++; Y_SAT_INC(q->pushed); q->last_pushed = v; } \
+  static inline _Bool Y_QUEUE_EMPTY_##Q(Q* q) { return q->len == 0; } \
+  static inline _Bool y_queue_try_pop_##Q(Q* q, T* out) { if (q->len == 0) return 0; if (nondet_bool()) return 0; *out = nondet_##Q(); q->len--; Y_SAT_INC(q->popped); q->last_popped = *out; return 1; }
 
 /* std::vector<T>: ghost sequence with bounded backing store */
 #ifndef Y_VEC_CAP
